@@ -458,16 +458,6 @@ def check_components(case, workdir):
             r.schedule_dependent = False
             return r.fail("run %d (%s): Caproni distribution without luminous star left reports a non-zero total luminosity (round-off residue of the running sum): DistributedPhotonSource indexes an empty vector: %s" % (
                 i, " ".join(args[2:]), bad or ("signal, rc %s" % run["rc"])))
-        if (bad and "DeRijckeRadiativeCooling" in bad and "rhd-radiative-cooling" in case["labels"]
-                and "rec-FixedValue" in case["labels"]):
-            # open finding C12-K1: constant (FixedValue) recombination rates +
-            # helium (the RHD default abundance is 0.1) + radiative cooling:
-            # once the run has cooled a cell to ~10 K the temperature
-            # dependent helium on-the-spot term of the coupled H/He balance
-            # (4.17e-20 (T/1e4)^-0.861) exceeds the constant hydrogen rate, the
-            # neutral fraction becomes NaN, do_cooling computes a NaN trial
-            # temperature and log(NaN) is cast to the cooling table index
-            r.known = "derijcke_cooling_nan_temperature"
         if bad:
             return r.fail("run %d (%s): %s" % (i, " ".join(args[2:]), bad))
         if run["cpu_exceeded"] and run["rc"] == -24:
